@@ -163,6 +163,11 @@ def gen_case(rng, i, tier):
     else:
         return gen_case(rng, i + 1000003, tier)
     plan.update({'hpath': hpath, 'form': form, 'local': local, 'broken': broken})
+    if rng.random() < 0.3:
+        # a second use of the same reference (second host for the same target)
+        cont['host2'] = clone(host)
+        plan['hpath2'] = list(cpath) + ['host2']
+        labels.add('second-host-same-target')
     return {'docs': docs, 'plan': plan, 'labels': sorted(labels)}
 
 
@@ -256,10 +261,14 @@ def check_case(ctx, case):
             dprime = clone(docs)
             parent = get_path(dprime[hd], plan['hpath'][:-1])
             parent[plan['hpath'][-1]] = exp
+            if plan.get('hpath2'):
+                parent[plan['hpath2'][-1]] = clone(exp)
     # D without the host
     dminus = clone(docs)
     parent = get_path(dminus[hd], plan['hpath'][:-1])
     del parent[plan['hpath'][-1]]
+    if plan.get('hpath2'):
+        del parent[plan['hpath2'][-1]]
     ops = evaluate(ctx, res, docs, 0) + evaluate(ctx, res, dminus, 1)
     if dprime is not None:
         ops += evaluate(ctx, res, dprime, 2)
